@@ -476,6 +476,44 @@ let run_dec (pd : string) (su : string) (lm : string) (hex : string) : string =
   ^ (if !stale_app then " #staleappend" else "")
   ^ (if lm <> "0" then " #log " ^ String.concat " ; " log else "")
 
+(* C14: the same stream decoded through the bufio machine (Model/Bufio.v), the input cut into the
+   chunks of the schedule (zero-length reads are outside the L1 model and skipped) *)
+let run_dec_chunk (pd : string) (su : string) (sched : string) (hex : string) : string =
+  let cfg = cfg_of pd su "0" in
+  let data = bytes_of_hex hex in
+  let eofw = String.length sched > 0 && sched.[String.length sched - 1] = 'E' in
+  let sched = if eofw then String.sub sched 0 (String.length sched - 1) else sched in
+  let repeat = String.length sched > 0 && sched.[String.length sched - 1] = '*' in
+  let sched = if repeat then String.sub sched 0 (String.length sched - 1) else sched in
+  let sizes = List.filter_map (fun x -> if x = "" then None else Some (int_of_string x)) (String.split_on_char ',' sched) in
+  let rec take k l = if k = 0 then ([], l) else match l with [] -> ([], []) | x :: t -> let (a, r) = take (k - 1) t in (x :: a, r) in
+  let rec cut sizes last l =
+    match l with
+    | [] -> []
+    | _ ->
+      (match sizes with
+       | 0 :: t -> cut t last l
+       | k :: t -> let (a, r) = take k l in a :: cut t k r
+       | [] -> if repeat && last > 0 then (let (a, r) = take last l in a :: cut [] last r) else [l]) in
+  let src = cut sizes 0 data in
+  let b = { b_buf = []; b_err = false; b_src = src; b_eofw = eofw } in
+  (* request sizes: any policy with 1 <= ask need <= need is covered by the theorem; sizes are
+     capped so that a length bomb never becomes a unary number *)
+  let small (need : n) (cap : int) : int =
+    if N.ltb (n_of_int cap) need then cap else int_of_n need in
+  let ask_full (need : n) : nat = nat_of_int (small need 65536) in
+  let ask_copy (need : n) : nat = nat_of_int (small need 512) in
+  let fuel = nat_of_int (List.length data + 2) in
+  let (results, _) = decode_all1 (nat_of_int 4096) ask_full ask_copy fuel cfg init_state b in
+  let parts = List.map (fun (r, st) ->
+      match r with
+      | Ok v ->
+        (match dump_val_capped st.d_heap v with
+         | None -> "ok TOOBIG"
+         | Some d -> "ok " ^ string_of_bytes d)
+      | _ -> show_res (fun _ -> "") r) results in
+  String.concat " | " parts
+
 let show_opt_hin (v : val0) : string = b01 (hashable v)
 
 let dumps (v : val0) : string = string_of_bytes (dump_val !parse_heap v)
@@ -570,6 +608,7 @@ let handle (line : string) : string =
      | ((r, _), _) -> "decode " ^ show_res (fun _ -> "") r)
   | "enc" :: proto :: su :: failat :: rest -> run_enc proto su failat rest
   | "norm" :: proto :: su :: rest -> run_norm proto su rest
+  | "decchunk" :: pd :: su :: _ :: sched :: rest -> run_dec_chunk pd su sched (match rest with [h] -> h | _ -> "")
   | "prog" :: proto :: su :: rest -> run_prog proto su rest
   | "pyload" :: proto :: su :: rest -> run_pyload proto su rest
   | "reenc" :: proto :: pd :: su :: rest -> run_reenc proto pd su (match rest with [h] -> h | _ -> "")
